@@ -32,13 +32,17 @@ import (
 
 func init() { translators["eventregistry"] = eventRegistry }
 
+// names of the package variables (the registry map and its mutex) and of the unexported function
+// behind the exported entry points: found by what they are, not by what they are called
+var erMu, erMap, erGet = "mu", "writers", "createOrGetWriter"
+
 func erIsMu(c *ast.CallExpr, method string) bool {
 	sel, ok := c.Fun.(*ast.SelectorExpr)
 	if !ok || sel.Sel.Name != method {
 		return false
 	}
 	id, ok := sel.X.(*ast.Ident)
-	return ok && id.Name == "mu"
+	return ok && id.Name == erMu
 }
 
 func erIsWriters(e ast.Expr) bool {
@@ -47,7 +51,67 @@ func erIsWriters(e ast.Expr) bool {
 		return false
 	}
 	id, ok := ix.X.(*ast.Ident)
-	return ok && id.Name == "writers"
+	return ok && id.Name == erMap
+}
+
+// the function an exported entry point returns the result of: `return f(..)`
+func erReturnedCallee(p *ewPkg, fd *ast.FuncDecl) string {
+	name := ""
+	ast.Inspect(p.body(fd), func(x ast.Node) bool {
+		if r, ok := x.(*ast.ReturnStmt); ok && len(r.Results) == 1 {
+			if c, ok := r.Results[0].(*ast.CallExpr); ok && name == "" {
+				name = ewCallName(c)
+			}
+		}
+		return true
+	})
+	return name
+}
+
+// package-level variables by type: the map (make(map[..]..) / map literal / declared map type)
+// and the mutex (sync.Mutex / sync.RWMutex)
+func erPackageVars(p *ewPkg) (mapName, muName string) {
+	for _, f := range p.files {
+		for _, d := range f.Decls {
+			gd, ok := d.(*ast.GenDecl)
+			if !ok || gd.Tok != token.VAR {
+				continue
+			}
+			for _, sp := range gd.Specs {
+				vs := sp.(*ast.ValueSpec)
+				for i, n := range vs.Names {
+					isMap, isMu := false, false
+					if _, ok := vs.Type.(*ast.MapType); ok {
+						isMap = true
+					}
+					if se, ok := vs.Type.(*ast.SelectorExpr); ok && (se.Sel.Name == "Mutex" || se.Sel.Name == "RWMutex") {
+						isMu = true
+					}
+					if i < len(vs.Values) {
+						switch v := vs.Values[i].(type) {
+						case *ast.CallExpr:
+							if ewCallName(v) == "make" && len(v.Args) > 0 {
+								if _, ok := v.Args[0].(*ast.MapType); ok {
+									isMap = true
+								}
+							}
+						case *ast.CompositeLit:
+							if _, ok := v.Type.(*ast.MapType); ok {
+								isMap = true
+							}
+						}
+					}
+					if isMap && mapName == "" {
+						mapName = n.Name
+					}
+					if isMu && muName == "" {
+						muName = n.Name
+					}
+				}
+			}
+		}
+	}
+	return
 }
 
 // the exclusive section of a function body: node indices (pre-order) between mu.Lock() and the
@@ -102,16 +166,28 @@ func (s erSection) in(n ast.Node) bool {
 
 func eventRegistry() string {
 	p := ewLoadPkg("core/the")
-	cg := p.fn("", "createOrGetWriter")
 	clr := p.fn("", "ClearEventWriters")
 	e1 := p.fn("", "EventWriter")
 	e2 := p.fn("", "EventWriterWithTopic")
-	if cg == nil || clr == nil || e1 == nil || e2 == nil {
-		die("eventregistry: createOrGetWriter / ClearEventWriters / EventWriter / EventWriterWithTopic not found in core/the")
+	if clr == nil || e1 == nil || e2 == nil {
+		die("eventregistry: ClearEventWriters / EventWriter / EventWriterWithTopic not found in core/the")
 	}
-	if p.value("writers") == nil {
-		die("eventregistry: package variable `writers` not found")
+	// the unexported function behind the exported entry points, whatever it is called
+	erGet = erReturnedCallee(p, e2)
+	var cg *ast.FuncDecl
+	if fds := p.funcs[erGet]; len(fds) == 1 {
+		cg = fds[0]
 	}
+	if cg == nil {
+		die("eventregistry: EventWriterWithTopic does not return the result of a function of the package")
+	}
+	erMap, erMu = erPackageVars(p)
+	if erMap == "" || erMu == "" {
+		die("eventregistry: the registry map / its mutex not found among the package variables")
+	}
+	savedAnchor := ewAnchor[erGet]
+	ewAnchor[erGet] = true // not to be inlined into its callers
+	defer func() { ewAnchor[erGet] = savedAnchor }()
 
 	// ---- createOrGetWriter
 	root := p.body(cg)
@@ -154,7 +230,7 @@ func eventRegistry() string {
 		return true
 	})
 	if len(writes) == 0 {
-		die("eventregistry: createOrGetWriter never stores into the map `writers`")
+		die("eventregistry: %s never stores into the registry map %s", erGet, erMap)
 	}
 	firstWrite := 1 << 30
 	lastWrite := 0
@@ -276,7 +352,7 @@ func eventRegistry() string {
 		found := false
 		ast.Inspect(b, func(x ast.Node) bool {
 			if r, ok := x.(*ast.ReturnStmt); ok && len(r.Results) == 1 {
-				if c, ok := r.Results[0].(*ast.CallExpr); ok && ewCallName(c) == "createOrGetWriter" {
+				if c, ok := r.Results[0].(*ast.CallExpr); ok && ewCallName(c) == erGet {
 					found = true
 				}
 			}
@@ -295,7 +371,7 @@ func eventRegistry() string {
 	ast.Inspect(croot, func(x ast.Node) bool {
 		switch v := x.(type) {
 		case *ast.RangeStmt:
-			if id, ok := v.X.(*ast.Ident); ok && id.Name == "writers" && csec.in(v) {
+			if id, ok := v.X.(*ast.Ident); ok && id.Name == erMap && csec.in(v) {
 				if val, ok := v.Value.(*ast.Ident); ok {
 					for _, c := range p.findCalls(v.Body, "Close") {
 						if sel, ok := c.Fun.(*ast.SelectorExpr); ok {
@@ -307,19 +383,19 @@ func eventRegistry() string {
 				}
 				if key, ok := v.Key.(*ast.Ident); ok {
 					for _, c := range p.findCalls(v.Body, "delete") {
-						if len(c.Args) == 2 && ewMentions(c.Args[0], "writers") && ewMentions(c.Args[1], key.Name) {
+						if len(c.Args) == 2 && ewMentions(c.Args[0], erMap) && ewMentions(c.Args[1], key.Name) {
 							empties = true
 						}
 					}
 				}
 			}
 		case *ast.CallExpr:
-			if ewCallName(v) == "clear" && len(v.Args) == 1 && ewMentions(v.Args[0], "writers") && csec.in(v) {
+			if ewCallName(v) == "clear" && len(v.Args) == 1 && ewMentions(v.Args[0], erMap) && csec.in(v) {
 				empties = true
 			}
 		case *ast.AssignStmt:
 			if len(v.Lhs) == 1 && len(v.Rhs) == 1 && csec.in(v) {
-				if id, ok := v.Lhs[0].(*ast.Ident); ok && id.Name == "writers" {
+				if id, ok := v.Lhs[0].(*ast.Ident); ok && id.Name == erMap {
 					if c, ok := v.Rhs[0].(*ast.CallExpr); ok && ewCallName(c) == "make" {
 						empties = true
 					}
